@@ -15,3 +15,4 @@ import G3D.Props.Classes
 #print axioms G3D.Props.Classes.geobody_forwards
 #print axioms G3D.Props.Classes.method_form_is_function_form
 #print axioms G3D.Props.Classes.point_not_geobody
+#print axioms G3D.Props.C04.never_raises_admissible
